@@ -497,6 +497,9 @@ size_t varintAdaptiveDecode(const uint8_t *src, uint64_t *values,
     case VARINT_ADAPTIVE_PFOR: {
         varintPFORMeta pforMeta;
         varintPFORReadMeta(data, &pforMeta);
+        if (pforMeta.count > maxCount) {
+            break; /* Not enough space in output buffer */
+        }
         decoded = varintPFORDecode(data, values, &pforMeta);
 
         if (meta) {
